@@ -25,11 +25,7 @@ theorem new_spec (confCap : Nat) (m : Mem) :
     · right
       have : Deque.new confCap m = (.errAlloc, none, m.alloc.2.alloc.2.free) := by simp [Deque.new, h1, h2]
       rw [this]
-      have e2 := Mem.alloc_fst_false m.alloc.2 h2
-      obtain ⟨f1, f2, f3, _⟩ := free_of_pos m.alloc.2.alloc.2 (by omega)
-      refine ⟨rfl, rfl, ⟨by simp only; omega, ?_, ?_⟩, Or.inr rfl⟩
-      · simp only; rw [f2, e2.2.1, e1.2.1]
-      · simp only; rw [f3, e2.2.2, e1.2.2]
+      exact ⟨rfl, rfl, alloc_refused2_same m h1 h2, Or.inr rfl⟩
     · left
       have : Deque.new confCap m = (.ok, some (Deque.mk 0 (upperPow2 confCap) 0 0 (Buf.mk (upperPow2 confCap))), m.alloc.2.alloc.2) := by simp [Deque.new, h1, h2]
       rw [this]
@@ -129,11 +125,7 @@ theorem copy_spec (d : Deque) (cp : Option (Nat → Nat)) (m : Mem) (hi : d.Inv)
     · right
       have : d.copy cp m = (.errAlloc, none, m.alloc.2.alloc.2.free) := by simp [copy, h1, h2]
       rw [this]
-      have e2 := Mem.alloc_fst_false m.alloc.2 h2
-      obtain ⟨f1, f2, f3, _⟩ := free_of_pos m.alloc.2.alloc.2 (by omega)
-      refine ⟨rfl, rfl, ⟨by simp only; omega, ?_, ?_⟩, Or.inr rfl⟩
-      · simp only; rw [f2, e2.2.1, e1.2.1]
-      · simp only; rw [f3, e2.2.2, e1.2.2]
+      exact ⟨rfl, rfl, alloc_refused2_same m h1 h2, Or.inr rfl⟩
     · left
       have : d.copy cp m = (.ok, some (Deque.mk d.size d.cap 0 (d.size % d.cap)
           (d.copyBuffer (Buf.mk d.cap) cp m.alloc.2.alloc.2).1),
@@ -400,5 +392,88 @@ theorem filterMut_spec (d : Deque) (pred : Nat → Bool) (m : Mem) (hi : d.Inv) 
     obtain ⟨q1, q2, q3, q4⟩ := filterMutLoop_spec pred d.size d 0 m hi (by omega)
     simp only [Bool.false_eq_true, if_false]
     refine ⟨(by first | rfl | trivial), by simpa using q1, q2, q3, q4, fun h => absurd rfl h⟩
+
+/-! ## `filter` (a new deque) -/
+
+theorem filterLoop_spec (d : Deque) (pred : Nat → Bool) (is : List Nat) (f : Deque) (m : Mem)
+    (hd : d.Inv) (hf : f.Inv) (hroom : f.size + is.length ≤ f.cap) :
+    (filterLoop d pred is f m).1 = .ok ∧
+    (filterLoop d pred is f m).2.1.abs = f.abs ++ (is.map fun i => d.buf.get (d.slot i)).filter pred ∧
+    (filterLoop d pred is f m).2.1.Inv ∧ (filterLoop d pred is f m).2.2 = m ∧
+    (filterLoop d pred is f m).2.1.cap = f.cap := by
+  have hpos := Inv.cap_pos hd
+  induction is generalizing f m with
+  | nil => exact ⟨rfl, by simp [filterLoop], hf, rfl, rfl⟩
+  | cons i is ih =>
+    unfold filterLoop
+    have hslot : d.slot i < d.buf.length := Nat.lt_of_lt_of_le (Nat.mod_lt _ hpos) hd.2.2.1
+    have hrd : (rd d.buf (d.slot i) m).2 = m := rd_snd _ _ _ hslot
+    simp only [rd_fst, hrd, List.map_cons, List.length_cons] at hroom ⊢
+    cases hp : pred (d.buf.get (d.slot i))
+    · simp only [Bool.false_eq_true, if_false]
+      obtain ⟨q1, q2, q3, q4, q5⟩ := ih f m hf (by omega)
+      refine ⟨q1, ?_, q3, q4, q5⟩
+      rw [q2, List.filter_cons, hp]; simp
+    · simp only [if_true]
+      have hadd : f.addLast (d.buf.get (d.slot i)) m = f.addLastCore (d.buf.get (d.slot i)) m := by
+        unfold addLast; rw [if_neg (by omega)]
+      obtain ⟨a1, a2, a3, a4, a5⟩ := addLastCore_spec f (d.buf.get (d.slot i)) m hf (by omega)
+      rw [hadd]
+      have hne : ((f.addLastCore (d.buf.get (d.slot i)) m).1 != Stat.ok) = false := by simp [a1]
+      simp only [hne, Bool.false_eq_true, if_false]
+      have hsize : (f.addLastCore (d.buf.get (d.slot i)) m).2.1.size = f.size + 1 := by
+        have := congrArg List.length a3; simpa using this
+      obtain ⟨q1, q2, q3, q4, q5⟩ := ih (f.addLastCore (d.buf.get (d.slot i)) m).2.1
+        (f.addLastCore (d.buf.get (d.slot i)) m).2.2 a2 (by rw [hsize, a5]; omega)
+      refine ⟨q1, ?_, q3, by rw [q4, a4], by rw [q5, a5]⟩
+      rw [q2, a3, List.filter_cons, hp]; simp
+
+theorem upperPow2_of_cap (d : Deque) (hi : d.Inv) : upperPow2 d.cap = d.cap := by
+  have h1 := upperPow2_ge d.cap hi.2.1
+  have h2 := upperPow2_least d.cap d.cap.log2 (by rw [← hi.1]; exact Nat.le_refl _)
+  rw [← hi.1] at h2
+  omega
+
+open CC.Spec in
+/-- **`cc_deque_filter`** (C15): rejected (no object) on an empty source; otherwise either a new deque
+with the source's capacity holding exactly the elements that satisfy the predicate, in source order, two
+more blocks owned — or `CC_ERR_ALLOC`, no object and a balanced ledger -/
+theorem filter_spec (d : Deque) (pred : Nat → Bool) (m : Mem) (hi : d.Inv) :
+    (d.size = 0 ∧ d.filter pred m = (.errOutOfRange, none, m) ∧ (DequeSpec.filter d.abs pred).1 = .errOutOfRange) ∨
+    (d.size ≠ 0 ∧ (d.filter pred m).1 = .ok ∧ (DequeSpec.filter d.abs pred).1 = .ok ∧
+      ∃ c, (d.filter pred m).2.1 = some c ∧ c.Inv ∧ some c.abs = (DequeSpec.filter d.abs pred).2 ∧
+        c.cap = d.cap ∧ (d.filter pred m).2.2.live = m.live + 2 ∧ (d.filter pred m).2.2.fault = m.fault) ∨
+    (d.size ≠ 0 ∧ (d.filter pred m).1 = .errAlloc ∧ (d.filter pred m).2.1 = none ∧
+      memSame (d.filter pred m).2.2 m ∧ (m.alloc.1 = false ∨ m.alloc.2.alloc.1 = false)) := by
+  by_cases h0 : d.size = 0
+  · left
+    have : d.abs = [] := List.eq_nil_of_length_eq_zero (by simp [h0])
+    refine ⟨h0, by unfold filter; rw [if_pos h0], by rw [this]; rfl⟩
+  · right
+    have hne : d.abs.isEmpty = false := by
+      cases h : d.abs with
+      | nil => have := congrArg List.length h; simp at this; omega
+      | cons _ _ => rfl
+    have hspec : DequeSpec.filter d.abs pred = (.ok, some (d.abs.filter pred)) := by
+      unfold DequeSpec.filter; rw [hne]; rfl
+    unfold filter
+    rw [if_neg h0]
+    dsimp only
+    rcases new_spec d.cap m with ⟨n1, c0, n2, n3, n4, n5, n6, n7, n8⟩ | ⟨n1, n2, n3, n4⟩
+    · left
+      rw [n2]
+      dsimp only
+      have hsz0 : c0.size = 0 := by have := congrArg List.length n4; simpa using this
+      have hcap : c0.cap = d.cap := by rw [n5, upperPow2_of_cap d hi]
+      obtain ⟨q1, q2, q3, q4, q5⟩ := filterLoop_spec d pred (List.range d.size) c0 (Deque.new d.cap m).2.2 hi n3
+        (by rw [hsz0, hcap]; simp; exact hi.2.2.2.2.2)
+      have hne' : ((filterLoop d pred (List.range d.size) c0 (Deque.new d.cap m).2.2).1 != Stat.ok) = false := by
+        simp [q1]
+      simp only [hne', Bool.false_eq_true, if_false]
+      refine ⟨h0, trivial, by rw [hspec], _, rfl, q3, ?_, by rw [q5, hcap], by rw [q4]; exact n6, by rw [q4]; exact n7⟩
+      rw [hspec, q2, n4]; rfl
+    · right
+      rw [n2]
+      exact ⟨h0, n1, rfl, n3, n4⟩
 
 end CC.Deque
